@@ -1,4 +1,5 @@
 import PgBifrost.Proofs.RabbitConfirmed
+import PgBifrost.Proofs.RabbitSrc
 /-!
 # C13 — RabbitMQ: written ⇒ the broker positively confirmed every message (property theorems)
 
@@ -251,5 +252,16 @@ example : ¬ Clean (batch .asIs 3 {} 2 [⟨.nack, false⟩, ⟨.ack, false⟩]).
   intro h
   have := (h (by decide) (by decide)).2
   exact absurd this (by decide)
+
+/-! ## the attempt IS the source's (translator `tools/factgen/rabbittr.go`, regenerated every run) -/
+
+/-- `waitForConfirmations` and the `operation` closure of `transportWithRetry`, translated statement by
+statement (loop condition, `remaining`, the desired count, the counter taking the confirmation's delivery tag,
+the cut of the batch for the retry, and the order of log points, channel resets and returns as written), run on
+the model's world, are the model's `attempt` after the repair - the function every theorem above is about. -/
+theorem rabbit_attempt_as_in_source (st : St) (msgs : List Nat) (toks : List Tok) :
+    (let r := PgBifrost.Gen.RabbitSrc.attempt msgs ⟨st, toks, []⟩
+     (r.2.st, r.2.toks, r.2.evs, r.1)) = attempt .fixed st msgs toks :=
+  PgBifrost.Proofs.RabbitSrc.attempt_eq st msgs toks
 
 end PgBifrost.Props.C13
